@@ -22,6 +22,12 @@ func init() {
 			defer func() { r.ruleAlias = "" }()
 			c05CloseOrder(r)
 		}})
+	registry["C01"].Rules = append(registry["C01"].Rules,
+		Rule{Name: "C01-R10-elements-fit-width", Doc: "every element stored in a numeric item fits the item's element width (it is a clamp result, a bound, or a widening that fits the narrowest width the path can be building), so the truncating big-endian encoders write the element's own value and decoding gives it back (shared with C16-R2)", Run: func(r *Run) {
+			r.ruleAlias = "C01-R10-elements-fit-width"
+			defer func() { r.ruleAlias = "" }()
+			c16StoredValues(r)
+		}})
 	registry["C19"].Rules = append(registry["C19"].Rules,
 		Rule{Name: "C19-R4-activity-stamps", Doc: "the receive stamp is stored for every frame read without error, whatever its type, before it is dispatched; the send stamp is stored exactly when the socket write succeeded; no other writer exists besides the per-connection reset", Run: c19ActivityStamps})
 	registry["C11"].Rules = append(registry["C11"].Rules,
